@@ -125,6 +125,15 @@ func (m *FloodSub) Execute(ctx context.Context) error {
 				m.mtx.Lock()
 				if m.peers[s.tpl] == s {
 					delete(m.peers, s.tpl)
+					// forget the subscriptions announced over the ended session:
+					// a later session with the same peer and link starts with the
+					// initial set the peer sends on it.
+					for chid, tm := range m.peerChannels {
+						delete(tm, s.tpl)
+						if len(tm) == 0 {
+							delete(m.peerChannels, chid)
+						}
+					}
 				}
 				m.mtx.Unlock()
 				// }
